@@ -36,20 +36,20 @@ type sinkEvent struct {
 }
 
 type envState struct {
-	c      *pathCtx
-	files  map[string]*vnode
-	order  []string
-	stdout []value
-	stderr []value
-	events []sinkEvent
-	args   []string
-	envv   map[string]string
-	nextFd int
-	clock  value // last instant handed out (int64 or *Term)
-	nclock int
-	cwd    string
-	home   string
-	hooks  map[string]value // harness-side callbacks (closures) by name
+	c       *pathCtx
+	files   map[string]*vnode
+	order   []string
+	stdout  []value
+	stderr  []value
+	events  []sinkEvent
+	args    []string
+	envv    map[string]string
+	nextFd  int
+	clock   value // last instant handed out (int64 or *Term)
+	nclock  int
+	cwd     string
+	home    string
+	hooks   map[string]value // harness-side callbacks (closures) by name
 	blobs   []blobEntry
 	locks   map[string]bool
 	lockFd  map[int]string
